@@ -108,6 +108,9 @@ class _Authn:
         return []
 
 
+DEFAULT_VIEW_PERM = 'view'       # the permission of the default view (name '') of the World
+
+
 def _view(context, request):
     return 'ok'
 
@@ -131,6 +134,9 @@ class World:
             config.commit()
             for p in (perms if policies else ()):
                 self.ensure_view(p)
+            if policies:
+                config.add_view(_view, name='', permission=DEFAULT_VIEW_PERM)      # the default view
+                config.commit()
         self.registry = config.registry
         self.Request, self.manager, self.security = Request, manager, security
 
@@ -166,6 +172,9 @@ class World:
         if vep is None:
             self.ensure_view(permission)
             name = permission
+        elif vep['kind'] == 'default':
+            # the `name` argument omitted: the default view ''
+            return self.security.view_execution_permitted(context, request)
         elif vep['kind'] == 'none':
             name = 'no-such-view'
         elif vep['kind'] == 'plain':
